@@ -25,6 +25,7 @@ DECIDED = [
     "ALIAS-1 each clone chain must-writes every mutable container field of the copy with a fresh, element-fresh container and detaches the copy (_parent = None)",
     "ALIAS-2 children are added to the copy only as clones and only under `if children`",
     "ID-1 new_id() is called iff not keep_id in every model class's clone, and keep_id is forwarded to every recursive clone",
+    "ID-2 new_id() changes the id and nothing else (the copy keeps every other attribute of the original, the name included)",
     "LEAF-1 export_leaf clones with keep_id=True, the chain Sections with children=False, and adds cloned Properties only",
     "ALIAS-3 the values getter returns a fresh list with inner lists copied; value mutators store converted values only",
     "FWD-2 TemplateHandler.clone_section forwards children and keep_id",
@@ -250,6 +251,22 @@ def run(prog, rep):
                                                                                      unparse(passed) if passed is not None else "omitted"),
                       where(f, c), witness="clone(keep_id=True) of a tree: ids below this level are fresh")
     rep.floor("ID-1", n_fwd, 3, "keep_id taking clone calls inside clone functions")
+
+    # ------------------------------------------------------------------- ID-2
+    rep.rule("ID-2", "transitive write summary of BaseDocument.new_id, BaseSection.new_id and BaseProperty.new_id: the only visible write "
+                     "is the store of _id on self")
+    for cname in MODEL:
+        f = prog.cls(cname).lookup_method("new_id")
+        if f is None:
+            raise AnalysisError("%s.new_id vanished" % cname)
+        rep.saw_function(f)
+        ws = S.visible_writes(f)
+        if not ws:
+            raise AnalysisError("%s.new_id has an empty write summary: effect analysis went blind" % cname)
+        other = sorted(set("%s.%s" % (w.origin[0], w.field) for w in ws if not (w.origin == ("P0", "") and w.field == "_id")))
+        rep.check(not other, "ID-2", "%s.new_id writes _id only" % cname, "%d write(s), all to self._id" % len(ws),
+                  "%s.new_id also writes %s: clone() (which calls new_id on the copy) no longer returns an equal copy" % (cname, other), f.where,
+                  witness="clone() of a Section that was created without a name: the copy has another name")
 
     # ----------------------------------------------------------------- LEAF-1
     rep.rule("LEAF-1", "Section.export_leaf: every clone call passes keep_id=True; the Section clones pass children=False; "
